@@ -809,7 +809,9 @@ func TestC30(t *testing.T) {
 			c30NewWorld(true, false, numbering), c30NewWorld(true, true, numbering)}
 	}
 	worlds := append(append(worldsOf(c30NumGlobal), worldsOf(c30NumASLocal)...), worldsOf(c30NumBothEnds)...)
-	r.Rule = "4 worlds (local AS core / non-core x ISD 1 with one / two core ASes) x life-time assignments of ALL segments " +
+	r.Rule = "12 worlds (local AS core / non-core x ISD 1 with one / two core ASes x interface numbering {globally unique, " +
+		"AS-local 1,2,3.. in every AS, the same number at both ends of a link}; every (b,d) pair of the tier runs on the 4 " +
+		"worlds of one numbering, the revocation-only pairs b=0 on all) x life-time assignments of ALL segments " +
 		"(each of the 6 or 12 segments is live / dead / dying 10.5 s into the history / only-last-hop-dead; all assignments with " +
 		"at most b non-live segments) x ALL histories of at most d events over {revoke one of 4 on-path or 1 off-path interface " +
 		"for 10 s, advance 4 s, advance 15 s, DeleteExpired} for the (b,d) pairs of the tier, then one lookup for each of 13 " +
@@ -943,7 +945,7 @@ func TestC30(t *testing.T) {
 	r.Sample(map[string]any{"world": worlds[3].name, "segments": "all segments live", "history": "advance4s ; delete-expired", "dst": "2-0"})
 	r.Assumptions = []string{
 		"the Resolver is a harness object that answers like the path DB (first/last AS match, AS 0 = any AS of the ISD) and never defers to a remote server; Pather, MultiSegmentSplitter, combinator and memrevcache are real",
-		"the traversed interfaces and the expiry of a returned path are read from its raw data-plane path (globally unique interface numbers), not from its metadata; 'expired' = earliest hop-field expiry <= now, 'active revocation' = issued no more than 10 s ago and not superseded",
+		"the traversed interfaces and the expiry of a returned path are read from its raw data-plane path by walking the world's topology from the local AS hop by hop (interface numbers are only unique inside an AS), and the metadata interface list must agree with that walk; 'expired' = earliest hop-field expiry <= now, 'active revocation' = issued no more than 10 s ago and not superseded",
 		"no event falls on an expiry instant (revocations last 10 s, segments die 10.5 s into a history, the clock moves in steps of 4 s, 7 s, 8 s and 15 s)",
 		"'has not expired / no active revocation' is judged at the instant GetPaths returns to the caller, also when the segment fetch took (virtual) time and a segment expired or a revocation arrived meanwhile",
 		"the topology has no peering links and no shortcuts (all leaf segments have one link)",
